@@ -49,6 +49,12 @@ func (t PredefinedTopics) GetTopicID(clientID, topic string) (uint16, bool) {
 	if tAll, ok := t["*"]; ok {
 		for topicID, topicName := range tAll {
 			if topicName == topic {
+				// A client-specific entry with the same ID shadows the
+				// "*" entry in GetTopicName, so this ID does not denote
+				// the topic for this client.
+				if _, shadowed := t[clientID][topicID]; shadowed {
+					continue
+				}
 				return topicID, true
 			}
 		}
